@@ -874,7 +874,7 @@ def _native_scope(which):
 
 def _extra():
     from contracts import c12_cost
-    return [_native_scope("explicit-limits"), _native_scope("repeat-attribute-classes"), _native_scope("zip-bomb-classes"), _native_scope("7z-declared-sizes"), _cost("guard_exemptions"), _cost("rescan_obligations"), policy, _cost("self_suffix_obligations"), _cost("xml_policy"), _cost("nested_scan_obligations")] + [_carve_task(k) for k in c12_cost.carve_tasks()]
+    return [_native_scope("explicit-limits"), _native_scope("repeat-attribute-classes"), _native_scope("zip-bomb-classes"), _native_scope("7z-declared-sizes"), _cost("guard_exemptions"), _cost("sevenzip_collisions"), _cost("rescan_obligations"), policy, _cost("self_suffix_obligations"), _cost("xml_policy"), _cost("nested_scan_obligations")] + [_carve_task(k) for k in c12_cost.carve_tasks()]
 
 
 EXTRA = _extra()
